@@ -37,6 +37,13 @@ def get_pair(fi, step):
                 return w
             wrappers[key] = w
         return wrappers[key]
+    if f["kind"] == "classmethod":
+        tag = step.get("holder", "h0")
+        key = (fi, "cls", tag)
+        if key not in wrappers:
+            plain = getattr({"h0": mod.Left, "h1": mod.Right}.get(tag, mod.Base), f["name"])
+            wrappers[key] = (plain, mem.cache(plain, ignore=f["ignore"] or None))
+        return wrappers[key]
     if f["kind"] == "partial":
         key = (fi, "partial")
         if key not in wrappers:
